@@ -333,6 +333,21 @@ func Run[C any](t *testing.T, p Prop[C]) {
 		}
 		if f != nil {
 			st.Failures = append(st.Failures, f.Key)
+			if os.Getenv("VERIF_SURVEY") != "" {
+				// triage mode: count failure keys and keep searching (never used by registered checks)
+				if st.Labels["SURVEY:"+f.Key] == 0 {
+					p := writeReplay(p.ID, p.Name, raw, f)
+					san := strings.Map(func(r rune) rune {
+						if (r >= 'a' && r <= 'z') || (r >= 'A' && r <= 'Z') || (r >= '0' && r <= '9') {
+							return r
+						}
+						return '_'
+					}, f.Key)
+					_ = os.Rename(p, strings.TrimSuffix(p, ".json")+".survey."+san+".json")
+				}
+				st.Labels["SURVEY:"+f.Key]++
+				f = nil
+			}
 		}
 		global.mu.Unlock()
 		if f != nil {
@@ -382,9 +397,10 @@ func replay[C any](t *testing.T, p Prop[C], path string) {
 // ---- known findings ------------------------------------------------------
 
 type finding struct {
-	Property string `json:"property"`
-	Status   string `json:"status"`
-	Key      string `json:"key"`
+	Property string   `json:"property"`
+	Status   string   `json:"status"`
+	Key      string   `json:"key"`
+	Keys     []string `json:"keys"` // further failure keys of the same root cause
 }
 
 var (
@@ -418,6 +434,9 @@ func Open(key string) bool {
 		for _, f := range doc.Findings {
 			if f.Status == "open" {
 				openKeys[f.Key] = true
+				for _, k := range f.Keys {
+					openKeys[k] = true
+				}
 			}
 		}
 	})
